@@ -37,7 +37,7 @@
 (***************************************************************************)
 EXTENDS RegFile
 
-CONSTANTS Mode, WFs, Vals, OrVal(_, _),
+CONSTANTS Mode, WFs, Zero, OrVal(_, _),
           NSimd, SFileSize, LaneStride, SGran, VGran,   \* timing geometry (dwords)
           ESRegs, EVRegs,                               \* emulation: registers per private file / per lane
           AllocS, AllocV,                               \* register counts a kernel may declare
@@ -58,7 +58,6 @@ VFiles == IF Tim THEN 0..(NSimd - 1) ELSE WFs
 SSize == IF Tim THEN SFileSize ELSE ESRegs
 Stride == IF Tim THEN LaneStride ELSE EVRegs
 VSize == NLanes * Stride
-Zero == CHOOSE v \in Vals : \A u \in Vals : OrVal(v, u) = u
 ZeroSp == [vcc |-> <<Zero, Zero>>, exec |-> <<Zero, Zero>>, scc |-> Zero, m0 |-> Zero]
 Up(n, g) == ((n + g - 1) \div g) * g
 
@@ -173,10 +172,12 @@ PRelease(w) ==
 
 \* ------------------------------------------------------------------ model
 OpsOf(a) ==
-  {o \in [k : Kinds, i : 0..3, c : Counts \cup {0, 1, 2}, lane : Lanes] :
-     /\ ValidOp(a, o)
-     /\ o.k # "v" => o.lane = 0
-     /\ o.k \notin {"s", "v"} => o.i = 0}
+  {[k |-> "s", i |-> x[1], c |-> x[2], lane |-> 0] :
+      x \in {y \in (0..(a.ns - 1)) \X Counts : y[1] + Width(y[2]) <= a.ns}}
+  \cup {[k |-> "v", i |-> x[1], c |-> x[2], lane |-> x[3]] :
+      x \in {y \in (0..(a.nv - 1)) \X Counts \X Lanes : y[1] + Width(y[2]) <= a.nv}}
+  \cup {[k |-> x[1], i |-> 0, c |-> x[2], lane |-> 0] :
+      x \in ({"vcclo", "execlo"} \X {0, 1, 2}) \cup ({"vcchi", "exechi", "m0", "scc"} \X {0, 1})}
 
 PInit == /\ Init
          /\ sfile = [f \in SFiles |-> [x \in 0..(SSize - 1) |-> Zero]]
@@ -184,11 +185,18 @@ PInit == /\ Init
          /\ sp = [w \in WFs |-> ZeroSp]
          /\ loc = <<>> /\ nops = 0 /\ last = [t |-> "I"]
 
+\* Both stores only MOVE values (the one exception, the as-implemented vcc_hi
+\* write, ORs two of them), so the model writes distinct tags: a value that
+\* turns up in the wrong register, lane or wavefront differs from what the
+\* flat model holds there, whatever the real data would have been.
+DataOf(n, o) == [j \in 1..Len(OpCells(o)) |-> 10 * (n + 1) + j]
+V0Of(w) == [n \in Lanes |-> 100 * w + n + 1]
+
 PNext ==
   /\ nops < MaxOps /\ nops' = nops + 1
-  /\ \/ \E w \in WFs \ Live, ns \in AllocS, nv \in AllocV, l \in Locs, v0s \in [Lanes -> Vals] :
-          PDispatch(w, [ns |-> ns, nv |-> nv], l, v0s)
-     \/ \E w \in Live : \E o \in OpsOf(alloc[w]) : \E d \in [1..Len(OpCells(o)) -> Vals] : PWrite(w, o, d)
+  /\ \/ \E w \in WFs \ Live, ns \in AllocS, nv \in AllocV, l \in Locs :
+          PDispatch(w, [ns |-> ns, nv |-> nv], l, V0Of(w))
+     \/ \E w \in Live : \E o \in OpsOf(alloc[w]) : PWrite(w, o, DataOf(nops, o))
      \/ \E w \in Live : PRelease(w)
 
 PSpec == PInit /\ [][PNext]_pvars
